@@ -81,12 +81,16 @@ func (n *OneToOneNode) forward(proc *process.Process) {
 			}
 			n.tracer.Link(inPck, errPck)
 			n.tracer.Write(errWriter, errPck)
-		} else {
+		} else if outPck != nil {
 			if outWriter == nil {
 				outWriter = n.outPort.Open(proc)
 			}
 			n.tracer.Link(inPck, outPck)
 			n.tracer.Write(outWriter, outPck)
+		} else {
+			// The action produced nothing: the request is answered with itself, as the
+			// one-to-many and many-to-one nodes do for an empty result.
+			n.tracer.Write(nil, inPck)
 		}
 	}
 
